@@ -2396,29 +2396,22 @@ class RawAlgorithmsMixIn:
     def _diag(cls, v_data, k = 0, out = None):
         """Extract a diagonal or construct  diagonal UTPM data"""
 
-        if numpy.ndim(v_data) == 3:
-            D,P,N = v_data.shape
-            if out is None:
-                out = numpy.zeros((D,P,N,N),dtype=v_data.dtype)
-            else:
-                out[...] = 0.
+        D,P = v_data.shape[:2]
 
-            for d in range(D):
-                for p in range(P):
-                    out[d,p] = numpy.diag(v_data[d,p])
+        # shape of the result of numpy.diag (k-th diagonal, also for
+        # rectangular matrices)
+        shp = numpy.diag(v_data[0,0], k).shape
 
-            return out
-
+        if out is None:
+            out = numpy.zeros((D,P) + shp,dtype=v_data.dtype)
         else:
-            D,P,M,N = v_data.shape
-            if out is None:
-                out = numpy.zeros((D,P,N),dtype=v_data.dtype)
+            out[...] = 0.
 
-            for d in range(D):
-                for p in range(P):
-                    out[d,p] = numpy.diag(v_data[d,p])
+        for d in range(D):
+            for p in range(P):
+                out[d,p] = numpy.diag(v_data[d,p], k)
 
-            return out
+        return out
 
     @classmethod
     def _diag_pullback(cls, ybar_data, x_data, y_data, k = 0, out = None):
